@@ -6,7 +6,7 @@ from pyvc.concrete import aliases, unwrap, wrap
 from pyvc.contract import REGISTRY, Args, Contract, register
 from pyvc.core import and_, ctx, div, implies, is_sym, ite, not_, or_
 from pyvc.prelude_sk import SymLinearRegression, SymRidge, SymStandardScaler
-from pyvc.spec import All, Forall, close
+from pyvc.spec import All, Forall, Imp, close
 
 from .base_utils import _tup
 from .blocks_c08 import BU, flat
@@ -17,6 +17,14 @@ from .spline_c03 import kernel
 from .vector_c03 import elastic_kernels
 
 LS = "verde.base.least_squares"
+
+
+def LSQ_NONSINGULAR():
+    """Uninterpreted hypothesis 'the (square) least-squares system is nonsingular'."""
+    import z3
+    from pyvc.core import SymBool
+
+    return SymBool(z3.Bool("lsq_system_is_nonsingular"))
 
 
 def reference_lsq(J, d, w, damping):
@@ -91,7 +99,17 @@ class LeastSquares(Contract):
             return out
         out["one_parameter_per_column"] = r.shape[0] == J0.shape[1]
         if c.stub_mode:
-            return out  # callers only need the shape; WHAT was solved is read off the recorded call
+            # callers read WHAT was solved off the recorded call. One mathematical fact about the optimum is
+            # offered (ASSUMED, used by the exactness lemmas of C01): an undamped solve of a square,
+            # nonsingular system reproduces the data exactly, J p = d.
+            if a.damping is None and not c.concrete:
+                from pyvc.sums import PartialSum
+
+                J, d = a.jacobian, flat(a.data)
+                ps = PartialSum("Jp", (J.shape[0],), J.shape[1], lambda p, t: J.at(p, t) * r.at(t))
+                c.ghost.setdefault("lsq_ps", []).append(ps)
+                out["ASSUMED.square_nonsingular_undamped_solve_is_exact"] = Imp(and_(J.shape[0] == J.shape[1], LSQ_NONSINGULAR()), Forall((J.shape[0],), lambda p: ps.total(p) == d.at(p)))
+            return out
         if c.concrete:
             ref, cond = reference_lsq(unwrap(J0), unwrap(flat(a.data)), None if a.weights is None else unwrap(a.weights), a.damping)
             if cond < 1e6:
